@@ -1,4 +1,4 @@
 From Coq Require Import Extraction ExtrOcamlBasic.
-From LT Require Import CodecModel CoinFlipModel TsigModel.
+From LT Require Import CodecModel CoinFlipModel TsigModel TsigDssModel.
 (* decode62 is extracted only because ocaml/drvcore.ml refers to the extracted type n (binary naturals) *)
-Extraction "model.ml" nts_verify dss_verify nts_share nts_share_check nts_combine nts_challenge fpowm powm_signed interp0 decode62.
+Extraction "model.ml" nts_verify dss_verify nts_share nts_share_check nts_combine nts_challenge fpowm powm_signed interp0 dss_lincomb dss_r_from dss_sign decode62.
